@@ -115,6 +115,13 @@ def gen_cases(tier, rng):
             + b"1.0\x00" + b"\x01" + (489940).to_bytes(8, "little"))
     players = b"\xff\xff\xff\xff\x44\x00"
     rules = b"\xff\xff\xff\xff\x45\x01\x00bat_max_players_i\x0012\x00"
+    # extra request settings through the generic entry point (Minecraft Java): same handshake as the protocol-level call
+    # with the equivalent settings (host name and protocol version independently present or absent)
+    import C09
+    for c in C09.minecraft_extra_cases(tier, rng.fork("mcx"), rng.fork("mcx-r")):
+        c["meta"]["game"] = "minecraftjava"
+        c["meta"]["stream"] = "minecraft-extra-settings"
+        cases.append(c)
     cases.append({"id": "battalion1944/rule", "hex": paths_case("battalion1944", "battalion1944", None, None, [info, players, rules]),
                   "meta": {"stream": "valid", "game": "battalion1944", "module": "battalion1944", "port": None, "ts": False}})
     return cases
@@ -140,12 +147,20 @@ def kind_of(diff):
 def oracle(case, impl, side):
     if impl is None:
         return ("no-output", "no output")
+    if case["meta"].get("stream") == "minecraft-extra-settings":
+        import C09
+        f = C09.oracle(case, impl, side)
+        return None if f is None else ("extra-settings:minecraftjava", "the generic entry point with extra request settings does not send what the protocol-level call with the equivalent settings sends: " + f[1])
     if "paths=DIFF" in side:
         d = side.split("paths=DIFF ", 1)[1].split(";module=", 1)[0]
         first = d.split(" ", 1)[0] if "[" not in d.split(" ", 1)[0] else d
         kind = kind_of(d.split("] ", 1)[0] + "]" if "] " in d else d)
         pair = d.split("[", 1)[0]
-        return ("paths-differ:%s:%s" % (case["meta"]["game"], kind),
+        import re
+        pairs = sorted(set(re.findall(r"(?:^| )([a-e]\w*)!=\w+\[", d)))
+        # the signature names which entry points disagree with the protocol-level call: a recorded finding
+        # covers exactly that set (a = query, b = with timeout, c = with extra settings, d = the game's module)
+        return ("paths-differ:%s:%s:%s" % (case["meta"]["game"], kind, "".join(pairs)),
                 "game %s (%s, port %s): path %s differ in %s: %s" % (case["meta"]["game"], case["id"], case["meta"]["port"], pair, kind, d[:700]))
     if "paths=ok" not in side and not impl.startswith("Err(InvalidInput"):
         return ("no-path-summary", "harness printed no path comparison: " + side[:200])
